@@ -520,7 +520,7 @@ def conc_handwritten(cls, ctx, rng, variant):
                         actions=[PL.UpdateDisplayNameAction(uuid='12345678-9abc-def0-1234-56789abcdef0', display_name='')])
         v = dict(action_type=PL.AddPlayerAction if variant else PL.RemovePlayerAction, actions=[a, a] if variant else [b])
     elif cls is SpawnObjectPacket:
-        v = dict(entity_id=9, type_id=70, pitch=360 * 3 / 256, yaw=0.0, data=5 if variant else 0)
+        v = dict(entity_id=9, type_id=70, pitch=360 * 3 / 256, yaw=0.0, data=-3 if variant == 2 else 5 if variant else 0)
         if later(49):
             v['object_uuid'] = '12345678-9abc-def0-1234-56789abcdef0'
         for a in 'xyz':
@@ -547,7 +547,7 @@ def replay_roundtrip(cls, i, label, rng=None):
     variant = 1 if label.endswith('1') else 0
     results = []
     for var in ((variant,) if rng is not None or label.startswith('v') else
-                (0, 1, 2, 3) if cls.__name__ == 'PlayerListItemPacket' else (0, 1)):
+                (0, 1, 2, 3) if cls.__name__ == 'PlayerListItemPacket' else (0, 1, 2) if cls.__name__ == 'SpawnObjectPacket' else (0, 1)):
         pkt = cls(ctx)
         if cls in HANDWRITTEN:
             vals = conc_handwritten(cls, ctx, rng, var)
